@@ -73,6 +73,14 @@ def run(repo: Repo, tier: str) -> Report:
             rep.ob("R-MASK", s.file, n, "the solver receives the input series", sv.series == s.mask["series"], f"series argument `{sv.series}`", f"series of {norm_stmt(sv.stmt)}")
     rep.floor("solver calls", n_calls, 22)
 
+    # ---- smoothers never store into the caller's series (a second call on the same buffer would see the placeholders replaced)
+    from ..rules import input_writes
+    for n in SMOOTHERS + HELPERS:
+        s = fam[n]
+        bad = input_writes(s.k)
+        rep.ob("R-READONLY", s.file, n, "the smoother never stores into its input series", not bad,
+               f"`{norm_stmt(bad[0])}` overwrites the caller's cells (placeholders at masked cells are lost for any later call on the same buffer)" if bad else "",
+               bad[0] if bad else f"{n}: stores into inputs")
     # ---- 4. minimum valid count guard + pass-through
     for n in SMOOTHERS:
         s = fam[n]
